@@ -58,5 +58,10 @@ record("warnp", wexe, "prog w\nname 2f782f79\nsyslog 1\nwarn 2 1 6d 0\nsyslog 0\
 from checks import x03
 rexe = vlib.build(c.dir, "drv_readpass", [os.path.join(vlib.HARNESS, "drv_readpass.c")] + vlib.repo_srcs("util/readpass.c", "util/warnp.c", "util/insecure_memzero.c"), wraps=x03.WRAPS)
 record("readpass", rexe, x03.prog(1, 1, 0, 1, 1, 1, 1, b"pw\npx\nqq\nqq\n", [(2, ["INT", "HUP"], "r")]), "util", "ReadpassTrace", "ReadpassTrace.cfg", ["drop", "sigrestore"])
+# network_ssl over a scripted engine (extra X04)
+from checks import x04
+sexe = vlib.build(c.dir, "drv_ssl", [os.path.join(vlib.HARNESS, "drv_ssl.c")] + vlib.repo_srcs(*x04.EV_SRCS), wraps=x04.WRAPS, libs=["-lssl", "-lcrypto"])
+record("ssl", sexe, "prog ssl\nrq R D2 D3\nwq W D4\nscript 1 rc 0\n  write 2 4 4\nendscript\nmain\n  open\n  read 1 5 5\n  runk\n  env 3\n  runk\n  runk\n  close\nendmain\nend\n",
+       "network", "NetSslTrace", "NetSslTrace.cfg", ["set", "cb", "n", 4])
 with open(os.path.join(OUT, "index.json"), "w") as f:
     json.dump(index, f, indent=1, sort_keys=True)
